@@ -655,7 +655,10 @@ func balanced(s string) bool {
 }
 
 func implies(a, b string) string {
-	if a == "true" {
+	if b == "" {
+		return "true"
+	}
+	if a == "" || a == "true" {
 		return b
 	}
 	if a == "false" || b == "true" {
@@ -761,4 +764,54 @@ func (e *Enc) strByName() map[string]string {
 		m[strings.Trim(name, "|")] = lit
 	}
 	return m
+}
+
+func (e *Enc) declaredNames() map[string]bool {
+	m := map[string]bool{}
+	for k := range e.declared {
+		m[k] = true
+	}
+	for _, n := range e.strConsts {
+		m[strings.Trim(n, "|")] = true
+	}
+	return m
+}
+
+// preludeDecls: options, logic and declarations only.
+func (e *Enc) preludeDecls() string {
+	var b strings.Builder
+	b.WriteString("(set-option :produce-models true)\n(set-logic ALL)\n")
+	for _, d := range e.decls {
+		b.WriteString(d)
+		b.WriteByte('\n')
+	}
+	return b.String()
+}
+
+// preludeAsserts: string-literal facts and global axioms as assertion bodies.
+func (e *Enc) preludeAsserts() []string {
+	var out []string
+	for _, s := range e.strFacts() {
+		s = strings.TrimSuffix(strings.TrimPrefix(s, "(assert "), ")")
+		out = append(out, s)
+	}
+	out = append(out, e.axioms...)
+	return out
+}
+
+// at: index of element i of a slice with offset off.  An uninterpreted function (with its
+// defining equation added as a ground fact for every ground use) so that quantified facts about
+// slice elements have an arithmetic-free pattern to match on.
+func (e *Enc) at(off, i string, ground bool) string {
+	I := e.INT()
+	e.declFun("at", []string{I, I}, I)
+	t := fmt.Sprintf("(at %s %s)", off, i)
+	if ground {
+		e.axiom(fmt.Sprintf("(= %s %s)", t, e.iop("+", off, i, true)))
+	} else if !e.bv {
+		// bound index: the defining equation, instantiated on at-terms only (math mode)
+		e.usesQuant = true
+		e.axiom(fmt.Sprintf("(forall ((a %s) (b %s)) (! (= (at a b) (+ a b)) :pattern ((at a b))))", I, I))
+	}
+	return t
 }
